@@ -15,12 +15,17 @@ import (
 type c04Behaviour struct {
 	Shape frShape `json:"shape"`
 	Opts  frOpts  `json:"opts"`
+	Raw   []int   `json:"raw"` // non-empty: "received octets" - parse these instead of building the shape
 }
 
 type c04Obs struct {
 	Ev       string  `json:"ev"`
 	Shape    frShape `json:"shape"`
 	Opts     frOpts  `json:"opts"`
+	Raw      bool    `json:"raw"`      // the message object was parsed from RawBytes, not constructed
+	RawBytes []int   `json:"rawbytes"` // the octets handed to the parser (the writer model's image of the shape)
+	RawErr   bool    `json:"rawerr"`   // ParseBGPMessage of RawBytes returned an error
+	RawMsg   string  `json:"rawmsg"`
 	BuildErr string  `json:"builderr"` // harness could not build the shape (machinery, not a verdict)
 	SerErr   bool    `json:"sererr"`   // Serialize returned an error
 	SerMsg   string  `json:"sermsg"`
@@ -49,7 +54,7 @@ func c04Empty() (frShape, frLens) {
 func c04Run(b *c04Behaviour) (obs c04Obs) {
 	b.Shape.norm()
 	es, el := c04Empty()
-	obs = c04Obs{Ev: "Msg", Shape: b.Shape, Opts: b.Opts, Bytes: []int{}, Proj: es, Lens: el, Reshape: es, Relens: el}
+	obs = c04Obs{Ev: "Msg", Shape: b.Shape, Opts: b.Opts, Bytes: []int{}, RawBytes: []int{}, Proj: es, Lens: el, Reshape: es, Relens: el}
 	defer func() {
 		if r := recover(); r != nil {
 			obs.Panic = fmt.Sprintf("%v", r)
@@ -60,10 +65,26 @@ func c04Run(b *c04Behaviour) (obs c04Obs) {
 	if b.Shape.K == "ex" {
 		name = b.Shape.Name
 	}
-	m1, err := frBuild(&b.Shape, b.Opts)
-	if err != nil {
-		obs.BuildErr = err.Error()
-		return
+	var m1 *BGPMessage
+	var err error
+	if len(b.Raw) > 0 {
+		obs.Raw, obs.RawBytes = true, b.Raw
+		rb := frBytes(b.Raw)
+		m1, err = ParseBGPMessage(rb[:len(rb):len(rb)], opts...)
+		if err != nil || m1 == nil {
+			obs.RawErr = true
+			if err != nil {
+				obs.RawMsg = err.Error()
+			}
+			return
+		}
+		m1.Header.Len = 0 // serialised below like a constructed message
+	} else {
+		m1, err = frBuild(&b.Shape, b.Opts)
+		if err != nil {
+			obs.BuildErr = err.Error()
+			return
+		}
 	}
 	obs.Proj = frProject(m1, name)
 	lens := frLensOf(m1, opts)
